@@ -47,7 +47,10 @@ func HarnessC06Layout() {
 	bodies := make([]string, k)
 	for j := 0; j < k; j++ {
 		names[j] = symLetter("insert")
-		switch vChoice("form", 3) {
+		switch vChoice("form", 4) {
+		case 3: // a block-form insert with nothing in it fills the reserve with nothing
+			page += "@insert(\"" + names[j] + "\")@end"
+			bodies[j] = ""
 		case 0:
 			page += "@insert(\"" + names[j] + "\")<b" + string([]byte{byte('0' + j)}) + "{{ x }}>@end"
 			bodies[j] = "<b" + string([]byte{byte('0' + j)}) + x + ">"
